@@ -233,7 +233,7 @@ CLAIMS['C16'] = dict(category='proof', ref='5 Core F, 8 C16',
          "on every run, and packets of every length up to the ring size in pieces are ordinary scenarios: conditions chunked, chunkwhole). At the level of "
          "the real ring: C15_ReadFrom_waits_only_when_full. Closed counterexamples: the model wedges with the ring before 584775d (D2), a writer panics with the stop() before e79396e (F1), stop() "
          "wedges when Wait precedes the Close calls, the sequential Server.Close before 08d14fb hangs (F6, found and repaired here), the receiver before "
-         "b77088f leaves a self-held connection standing after a keep-alive expiry (F7). HALF-CLOSE: the socket of the model has a fourth state, peerShut - the peer has shut down its sending direction only: reads fail with end-of-stream, writes block while the peer does not read, as on an open socket -, so the receiver's conn.Close on a failed read is what the model needs to end a sender blocked towards such a peer: with a read pending at the half-close the teardown completes or is held by a third party (C16_halfclose_torn_down), without the receiver's close the same state wedges with two goroutines parked (closed C16_halfclose_needs_receiver_close); a half-close that meets a receiver parked for space in a completely full incoming ring is not noticed at all (closed C16_halfclose_unnoticed - the state of finding F8, for which C16_no_deadlock and C16_teardown_completes carry an explicit exception since the state exists in the model); scenarios `life run <cond> halfclose` through a broker-side pipe wrapper that can be half-closed. The order of stop(), its "
+         "b77088f leaves a self-held connection standing after a keep-alive expiry (F7). HALF-CLOSE: the socket of the model has a fourth state, peerShut - the peer has shut down its sending direction only: reads fail with end-of-stream, writes block while the peer does not read, as on an open socket -, so the receiver's conn.Close on a failed read is what the model needs to end a sender blocked towards such a peer: with a read pending at the half-close the teardown completes or is held by a third party (C16_halfclose_torn_down), without the receiver's close the same state wedges with two goroutines parked (closed C16_halfclose_needs_receiver_close); a half-close that meets a receiver parked for space in a completely full incoming ring is not noticed at all (closed C16_halfclose_unnoticed - the state of finding F8, for which C16_no_deadlock and C16_teardown_completes carry an explicit exception since the state exists in the model); scenarios `life run <cond> halfclose` through a broker-side pipe wrapper that can be half-closed; cause `badfull` (an illegal packet of exactly the ring size: the PROCESSOR ends the connection while the incoming ring is completely full and the receiver waits for room - only stop()'s in.Close() wakes it). The order of stop(), its "
          "guards, the deferred recovers, Done-then-stop, the processor loop, writeMessage's lock structure, Server.Close, the receiver's conn.Close-then-return "
          "after a failed ReadFrom and the ring's lock structure are "
          "regenerated from the source and tied by decide (C16_source_shape). Since the take-over repair a handshake may wait for a teardown that a third party holds (Server.disconnectClient); Server.Close, which ends that wait, needs Server.mu first: the regenerated statement order of disconnectClient has its explicit unlock before stop() and the wait, so Close gets the mutex at every point at which disconnectClient may be waiting (C16_disconnectClient_waits_without_mu, Properties/C16Source.lean; scenario `life takeover srvclose`: Server.Close returns while a take-over waits). Tied to the real broker by fault sequences (8 buffer conditions x 6 causes x "
